@@ -424,3 +424,9 @@ pub fn gen_events(r: &mut Rng, cfg: &Config, o: &SessionOpts, policy: CutPolicy,
     }
     evs
 }
+
+/// `gen_events` with the cut policy drawn from the run's PRNG first.
+pub fn gen_events_anycut(r: &mut Rng, cfg: &Config, o: &SessionOpts, dp: DrainPolicy, gs: &mut GenStats) -> Vec<Event> {
+    let policy = *r.pick(&CUT_POLICIES);
+    gen_events(r, cfg, o, policy, dp, gs)
+}
